@@ -137,13 +137,30 @@ macro_rules! c01_body {
                 y.push(src.$anys());
                 i += 1;
             }
-            let lp: [$F; 3] = [src.$anyf(), src.$anyf(), src.$anyf()];
+            let exact_domain = mode == MODE_ROBUST;
+            let mut draw = |src: &mut Src| -> $F {
+                if exact_domain {
+                    match src.u8() % 8 {
+                        0 => -2.0,
+                        1 => -1.0,
+                        2 => 0.0,
+                        3 => 1.0,
+                        4 => 3.0,
+                        5 => <$F>::INFINITY,
+                        6 => <$F>::NEG_INFINITY,
+                        _ => <$F>::NAN,
+                    }
+                } else {
+                    src.$anyf()
+                }
+            };
+            let lp: [$F; 3] = [draw(src), draw(src), draw(src)];
             let mut q: [[$F; 3]; 3] = [[0.0; 3]; 3];
             let mut a = 0;
             while a < 3 {
                 let mut b = 0;
                 while b < 3 {
-                    q[a][b] = src.$anyf();
+                    q[a][b] = draw(src);
                     b += 1;
                 }
                 a += 1;
@@ -201,22 +218,12 @@ macro_rules! c01_body {
                     chk!(src, accept || at_x, "a rejected step leaves the chain at x bit for bit");
                 }
             } else if mode == MODE_ROBUST {
-                let big: $F = $big;
-                let all_finite = lpx.is_finite() && lpy.is_finite() && fwd.is_finite() && bwd.is_finite();
-                let small = lpx.abs() <= big && lpy.abs() <= big && fwd.abs() <= big && bwd.abs() <= big;
+                // stage 2 of the rounding policy: the table values come from a domain on which every association of the
+                // four-term sum is exact (small integers, or +-inf / NaN), so a re-associated but mathematically equal
+                // formula decides identically, while ln u still ranges over every float
                 if iy == 1 {
-                    if all_finite && small && lnu.is_finite() {
-                        let scale = lpx.abs() + lpy.abs() + fwd.abs() + bwd.abs() + lnu.abs();
-                        let tol = scale * ($tolexp as $F);
-                        if lnu < ratio - tol {
-                            chk!(src, at_y, "moves to y when ln u is clearly below the log acceptance ratio");
-                        }
-                        if lnu > ratio + tol {
-                            chk!(src, at_x, "stays at x when ln u is clearly above the log acceptance ratio");
-                        }
-                    } else if !all_finite || !lnu.is_finite() {
-                        chk!(src, at_y == accept, "non-finite log values: moves to y exactly when ln u < ratio in IEEE arithmetic");
-                    }
+                    chk!(src, at_y == accept, "on exactly representable log-values: moves to y exactly when ln u < [lp(y)+q(x|y)] - [lp(x)+q(y|x)]");
+                    chk!(src, accept || at_x, "a rejected step leaves the chain at x bit for bit");
                 }
             } else {
                 chk!(src, at_x, "a candidate whose log-density is -inf or NaN is never adopted");
